@@ -11,8 +11,12 @@ From UV.Gen Require Import Tables.
 From UV.Vers Require Import Model Spec.
 From UV.Schemes Require Import Common Semver SemverProofs.
 From UV.Vers Require Import ContainsProofs.
-From UV.Native Require Import Intervals IntervalsWf Shorthand.
+From UV.Native Require Import Intervals IntervalsWf Shorthand MavenRange MavenRangeProofs Advisory AdvisoryProofs Relations RelationsProofs Nginx NginxProofs.
+From UV.Py Require Import PyStr.
+From UV.Vers Require Import VersText.
+From Coq Require Import Ascii String.
 Import ListNotations.
+Local Open Scope list_scope.
 
 Theorem C06_one_alternative :
   forall (V : Type) (cmp : V -> V -> comparison) (a : alt V) (p : V),
@@ -86,6 +90,93 @@ Example C06_ascending_inhabited :
      AIval Z {| lo := Some (6, true)%Z; hi := Some (12, true)%Z; excl := [8; 10]%Z |}].
 Proof. repeat constructor. Qed.
 
+(* The Maven / NuGet bracket notation, parser included.  For any scheme (V, cmp a total preorder, mk its constructor) and
+   any expression e of exact versions [v] and intervals (lo,hi) / [lo,hi] / ... written with plain version texts
+   (no bracket, comma or blank), whose alternatives pass the parser's own sanity checks (made with maven's order
+   mcmp on the bound texts) and are ascending and disjoint in the scheme's order: the model of maven.VersionRange and
+   MavenVersionRange.from_native reads the TEXT render e as constraints that contain exactly the versions the
+   expression matches; they are already sorted (the range constructor's sort leaves them as they are) and well-formed. *)
+Theorem C06_bracket_notation_parsed_text :
+  forall (mcmp : str -> str -> comparison) (V : Type) (cmp : V -> V -> comparison), TPO cmp ->
+  forall (mk : str -> res V) (e : list ralt) (alts : list (alt V)),
+    forallb clean_alt e = true -> forallb (alt_checks mcmp) e = true -> chain_ok mcmp None e = true ->
+    forallb (eq_checks mcmp) e = true -> mapM (alt_of V mk) e = Ok alts -> separated V cmp alts ->
+    (exists cs, maven_native mcmp V mk (render e) = Ok cs /\ forall p, den V cmp cs p = nmatch V cmp alts p) /\
+    (Forall (fun a => alt_inc V cmp a = true) alts -> alts <> [] ->
+     exists cs, maven_native mcmp V mk (render e) = Ok cs /\ sort_c V cmp cs = Ok cs /\ wf_sorted V cmp cs = true).
+Proof.
+  intros mcmp V cmp T mk e alts C K H Q M S. split.
+  - apply (bracket_native_exact mcmp V cmp T mk e alts); assumption.
+  - intros I N. apply (bracket_native_sorted mcmp V cmp T mk e alts); assumption.
+Qed.
+
+(* non-vacuity: "(,1.0],[1.2,2.0)" on the generic scheme *)
+Example C06_bracket_inhabited :
+  let e := [RIval None (Some (list_ascii_of_string "1.0")) false true;
+            RIval (Some (list_ascii_of_string "1.2")) (Some (list_ascii_of_string "2.0")) true false] in
+  render e = list_ascii_of_string "(,1.0],[1.2,2.0)" /\
+  forallb clean_alt e = true /\ forallb (alt_checks UV.Schemes.Common.cmp_str) e = true /\ chain_ok UV.Schemes.Common.cmp_str None e = true /\
+  forallb (eq_checks UV.Schemes.Common.cmp_str) e = true /\
+  maven_native UV.Schemes.Common.cmp_str str (fun t => Ok t) (render e)
+    = Ok [C LE (list_ascii_of_string "1.0"); C GE (list_ascii_of_string "1.2"); C LT (list_ascii_of_string "2.0")].
+Proof. repeat split; vm_compute; reflexivity. Qed.
+
+(* The relationship-string notations (deb: "(>= 1.0)", "<< 2.0"; rpm: ">= 1.0,"), parser included.  The comparator
+   tables are the ones of /repo (regenerated on every run; the finite check table_ok is re-proved by computation).
+   One relation written as wrapper, comparator spelling, version, wrapper with whitespace anywhere is read as the stated
+   constraint; a list of relations as the list of their constraints (sorted by the range); a lower and an upper
+   relation contain exactly the versions between the stated bounds. *)
+Theorem C06_relationship_notations :
+  (table_ok deb_table = true /\ table_ok rpm_table = true) /\
+  forall (V : Type) (cmp : V -> V -> comparison), TPO cmp -> forall (vctor : str -> res V) (Tb : ctable) (strip : str),
+  table_ok Tb = true -> nospace_set strip = true ->
+  (forall (k : string) (o : cop) (v pre post w : str) (x : V),
+     In k (map fst Tb) -> lookup_table Tb (s2l k) = Some (Some o) -> vplain v = true ->
+     forallb (fun c => mem_c c strip) pre = true -> forallb (fun c => mem_c c strip) post = true ->
+     forallb (fun c => negb (mem_c c strip)) (s2l k ++ v) = true ->
+     vctor v = Ok x -> ws_variant (pre ++ (s2l k ++ v) ++ post) w ->
+     relation_constraint V vctor Tb strip w = Ok (C o x)) /\
+  (forall (items : list str) (cs : list (constr V)),
+     Forall2 (fun w c => relation_constraint V vctor Tb strip w = Ok c) items cs ->
+     relations_range V cmp vctor Tb strip items = sort_c V cmp cs) /\
+  (forall (w1 w2 : str) (lo hi : V * bool),
+     relation_constraint V vctor Tb strip w1 = Ok (lo_c V lo) -> relation_constraint V vctor Tb strip w2 = Ok (hi_c V hi) ->
+     cmp (fst lo) (fst hi) = Lt ->
+     exists cs, relations_range V cmp vctor Tb strip [w1; w2] = Ok cs /\
+                forall p, den V cmp cs p = above V cmp lo p && below V cmp hi p).
+Proof.
+  split; [exact deb_rpm_tables_ok|]. intros V cmp T vctor Tb strip HT Hs. split; [|split].
+  - intros k o v pre post w x Hin Hl Hv Hpre Hpost Hb Hx Hw. apply (relation_rendered V vctor Tb strip k o v pre post w x); assumption.
+  - apply relations_rendered.
+  - apply (relations_interval V cmp T vctor Tb strip).
+Qed.
+
+(* non-vacuity: "( >> 2.23 )" in the deb table is the constraint >2.23 on the generic scheme *)
+Example C06_relation_inhabited :
+  relation_constraint str (fun t => Ok t) deb_table deb_strip (list_ascii_of_string "( >> 2.23 )") = Ok (C GT (list_ascii_of_string "2.23")) /\
+  relation_constraint str (fun t => Ok t) rpm_table rpm_strip (list_ascii_of_string "<= 2.24,") = Ok (C LE (list_ascii_of_string "2.24")) /\
+  nospace_set deb_strip = true /\ nospace_set rpm_strip = true.
+Proof. repeat split; vm_compute; reflexivity. Qed.
+
+(* The nginx advisory notation, parser included: a comma-separated list of clauses "A-B", "V+", "V" written with plain
+   version texts is read as the constraints each clause states - [>=A, <=B], nginx_plus V (whose denotation is
+   C06_nginx_plus above), [=V] - in the order written (the range then sorts them).  The openssl notation is a list of
+   versions, read as one "=" constraint each. *)
+Theorem C06_nginx_and_openssl_notations_parsed_text :
+  (forall c, clause_plain c = true -> nginx_clause (clause_text c) = clause_constraints c) /\
+  (forall (l : list nclause) (cs : list (constr semver)),
+     l <> [] -> forallb clause_plain l = true -> NginxProofs.all_constraints l = Ok cs ->
+     nginx_native (join_c c_comma (map clause_text l)) = Ok cs) /\
+  (forall (V : Type) (vctor : str -> res V) (vs : list str), vs <> [] -> forallb nplain vs = true ->
+     openssl_native vctor (join_c c_comma vs) = mapM (fun t => match vctor t with Ok v => Ok (C EQ v) | Err e => Err e end) vs).
+Proof. split; [exact nginx_clause_rendered|]. split; [exact nginx_native_rendered|]. intros V. exact (@openssl_native_rendered V). Qed.
+
+Example C06_nginx_inhabited :
+  nginx_native (list_ascii_of_string "1.5.0+, 1.4.1+") =
+    Ok [C GE (mk 1 5 0); C GE (mk 1 4 1); C LT (mk 1 5 0)] /\
+  clause_plain (NPlus (list_ascii_of_string "1.4.1")) = true.
+Proof. split; vm_compute; reflexivity. Qed.
+
 Print Assumptions C06_one_alternative.
 Print Assumptions C06_flat_expression.
 Print Assumptions C06_result_well_formed.
@@ -96,3 +187,9 @@ Print Assumptions C06_major_x.
 Print Assumptions C06_nginx_plus.
 Print Assumptions C06_hyphen.
 Print Assumptions C06_separated_inhabited.
+Print Assumptions C06_bracket_notation_parsed_text.
+Print Assumptions C06_bracket_inhabited.
+Print Assumptions C06_relationship_notations.
+Print Assumptions C06_relation_inhabited.
+Print Assumptions C06_nginx_and_openssl_notations_parsed_text.
+Print Assumptions C06_nginx_inhabited.
